@@ -564,7 +564,10 @@ func (r *rateLimiter) cleanupTimeoutClient() {
 			reason := fmt.Sprintf("instance %s last heartbeat since %v", instance, lastHeartbeat.Format(time.RFC3339Nano))
 			go func() {
 				for _, limitStore := range r.limitStoreMap {
-					conditions := limitStore.List(labels.Set{RateLimitConditionInstanceLabel: instance}.AsSelector())
+					// The identity of a gateway (<client-id-prefix>-<pid>-<random>, the prefix often being
+					// host:port) need not be a valid label value. Set.AsSelector() answers an invalid value with
+					// the selector that matches EVERYTHING, which would delete the conditions of all instances.
+					conditions := limitStore.List(labels.SelectorFromValidatedSet(labels.Set{RateLimitConditionInstanceLabel: instance}))
 					for _, condition := range conditions {
 						r.deleteCondition(limitStore, condition, reason)
 					}
